@@ -1,1 +1,7 @@
-//! harness package hdisp
+//! harness package hdisp - C18 (compio-dispatcher).
+//!
+//! Shared pieces of `record_dispatcher`: the seeded program generator, the program format
+//! (serde, replayable) and the lock-free event recorder.
+
+pub mod program;
+pub mod recorder;
